@@ -342,17 +342,24 @@ def run(ctx):
     # ---- (MC)
     t0 = time.time()
     vlib._speccopy(ctx)           # before the threads start (the copy is not re-entrant)
-    with ThreadPoolExecutor(max_workers=3) as ex:
+    with ThreadPoolExecutor(max_workers=4) as ex:
         f_mc = ex.submit(vlib.tlc_mc, ctx, 'Totality', 'Totality_mc.cfg' if quick else 'Totality_mcfull.cfg', 4, timeout=2400, heap='4g')
         gen_dump = ctx.path('gen', 'totality')
-        f_gen = ex.submit(vlib.tlc_mc, ctx, 'Totality', 'Totality_gen1.cfg' if quick else 'Totality_gen2.cfg', 4, dump=gen_dump,
-                          timeout=2400, heap='4g')
+        # one operator on every model document (incl. the long path document with every command letter); the thorough tier adds
+        # every second operator on the short documents
+        f_gen = ex.submit(vlib.tlc_mc, ctx, 'Totality', 'Totality_gen1.cfg', 4, dump=gen_dump, timeout=2400, heap='4g')
+        f_gen2 = None if quick else ex.submit(vlib.tlc_mc, ctx, 'Totality', 'Totality_gen2.cfg', 4, dump=gen_dump + '2', timeout=2400, heap='4g')
         f_hz = ex.submit(vlib.tlc, ctx, 'Totality', 'Totality_hazard.cfg', 2, timeout=600)
         r_mc, r_gen, r_hz = f_mc.result(), f_gen.result(), f_hz.result()
+        if f_gen2:
+            f_gen2.result()
     if 'ErrGivesOriginalInv' not in r_hz['invariant_violations']:
         raise vlib.Infra('hazard model did not violate ErrGivesOriginalInv (clause would be vacuous):\n' + r_hz['out'][-1500:])
     vlib.log('c10: model checking %.1fs' % (time.time() - t0))
     mutants = parse_gen_dump(gen_dump + '.dump')
+    if not quick:
+        seen1 = set((m[0], m[1], m[2]) for m in mutants)
+        mutants += [m for m in parse_gen_dump(gen_dump + '2.dump') if (m[0], m[1], m[2]) not in seen1]
     ctx.coverage['model_mutants'] = len(mutants)
     ctx.coverage['hazard_counterexample_found'] = True
 
